@@ -32,6 +32,10 @@ pub enum Kind {
     HmcWide,
     Nuts,
     MhSleepy,
+    /// the library's own 2-D Gaussian targets (their parameters derive from `prop_seed`)
+    MhGauss2D,
+    HmcGauss2D,
+    NutsGauss2D,
 }
 
 /// isotropic Gaussian target whose evaluation time depends on the chain's start (first coordinate
@@ -74,6 +78,14 @@ fn t3<B: burn::tensor::backend::Backend>(t: Tensor<B, 3>) -> Vec<u64> {
     let mut v: Vec<u64> = t.dims().iter().map(|d| *d as u64).collect();
     v.extend(t.to_data().iter::<f64>().map(|x| x.to_bits()));
     v
+}
+
+/// mean and SPD covariance of the library 2-D Gaussians, a pure function of `prop_seed`
+fn gauss2d_params(prop_seed: u64) -> ([f64; 2], [[f64; 2]; 2]) {
+    let mut h = Sm64::new(prop_seed ^ 0x6a75_7373);
+    let (a, d) = (h.log_uniform(0.3, 3.0), h.log_uniform(0.3, 3.0));
+    let b = h.uniform(-0.8, 0.8) * (a * d).sqrt();
+    ([h.uniform(-1.0, 1.0), h.uniform(-1.0, 1.0)], [[a, b], [b, d]])
 }
 
 /// Builds the sampler from `cfg` and returns the byte image of run() (or run_progress()).
@@ -155,6 +167,43 @@ pub fn run_once(cfg: &Cfg, progress: bool) -> Result<Vec<u64>, String> {
                 t3(s.run(cfg.n_collect, cfg.n_discard))
             }
         }
+        Kind::MhGauss2D => {
+            let (mean, cov) = gauss2d_params(cfg.prop_seed);
+            let target = mini_mcmc::distributions::Gaussian2D::<f64> { mean: ndarray::arr1(&mean), cov: ndarray::arr2(&cov) };
+            let proposal = IsotropicGaussian::<f64>::new(0.9).set_seed(cfg.prop_seed);
+            let inits: Vec<Vec<f64>> = cfg.inits.iter().map(|r| vec![r[0], r[r.len() - 1]]).collect();
+            let mut s = MetropolisHastings::new(target, proposal, inits).seed(cfg.seed);
+            let a = if progress {
+                s.run_progress(cfg.n_collect, cfg.n_discard).unwrap().0
+            } else {
+                s.run(cfg.n_collect, cfg.n_discard).unwrap()
+            };
+            let mut v: Vec<u64> = a.shape().iter().map(|d| *d as u64).collect();
+            v.extend(a.iter().map(|x| x.to_bits()));
+            v
+        }
+        Kind::HmcGauss2D => {
+            let (mean, cov) = gauss2d_params(cfg.prop_seed);
+            let target = mini_mcmc::distributions::DiffableGaussian2D::<f64>::new(mean, cov);
+            let inits: Vec<Vec<f64>> = cfg.inits.iter().map(|r| vec![r[0], r[r.len() - 1]]).collect();
+            let mut s = HMC::<f64, B64, _>::new(target, inits, 0.2, 4).set_seed(cfg.seed);
+            if progress {
+                t3(s.run_progress(cfg.n_collect, cfg.n_discard).unwrap().0)
+            } else {
+                t3(s.run(cfg.n_collect, cfg.n_discard))
+            }
+        }
+        Kind::NutsGauss2D => {
+            let (mean, cov) = gauss2d_params(cfg.prop_seed);
+            let target = mini_mcmc::distributions::DiffableGaussian2D::<f64>::new(mean, cov);
+            let inits: Vec<Vec<f64>> = cfg.inits.iter().map(|r| vec![r[0], r[r.len() - 1]]).collect();
+            let mut s = NUTS::<f64, B64, _>::new(target, inits, 0.8).set_seed(cfg.seed);
+            if progress {
+                t3(s.run_progress(cfg.n_collect, cfg.n_discard).unwrap().0)
+            } else {
+                t3(s.run(cfg.n_collect, cfg.n_discard))
+            }
+        }
         Kind::Nuts => {
             let target = DiagGauss::new((0..cfg.dim).map(|i| 0.8 + 0.5 * i as f64).collect(), vec![0.0; cfg.dim]);
             let mut s = NUTS::<f64, B64, DiagGauss>::new(target, cfg.inits.clone(), 0.8).set_seed(cfg.seed);
@@ -224,7 +273,7 @@ fn case(ctx: &Ctx, rep: &mut Report, case: u64, g: &mut Sm64, kind: Kind) {
     let n_chains = g.range(1, 6);
     let dim = g.range(1, 4);
     let (seed, seed_class) = special_seed(g, n_chains);
-    let heavy = matches!(kind, Kind::Nuts | Kind::Hmc | Kind::Hmc32 | Kind::HmcWide);
+    let heavy = matches!(kind, Kind::Nuts | Kind::Hmc | Kind::Hmc32 | Kind::HmcWide | Kind::HmcGauss2D | Kind::NutsGauss2D);
     let cfg = Cfg {
         kind,
         seed,
@@ -272,6 +321,28 @@ fn case(ctx: &Ctx, rep: &mut Report, case: u64, g: &mut Sm64, kind: Kind) {
     if !compare("repeated construction with the same seed", run_once(&cfg, false), rep) {
         return;
     }
+    // (i') process history: on one and the same worker thread a sampler of the same kind with
+    // other parameters runs and is dropped, then the sampler is built again (its allocations
+    // land where the other one's were)
+    {
+        let mut decoy = cfg.clone();
+        decoy.prop_seed = cfg.prop_seed.wrapping_mul(0x9e37_79b9).wrapping_add(12345);
+        decoy.seed = seed.wrapping_add(99);
+        for r in decoy.inits.iter_mut() {
+            for x in r.iter_mut() {
+                *x = -*x * 0.7 + 0.1;
+            }
+        }
+        let pool1 = rayon::ThreadPoolBuilder::new().num_threads(1).build().unwrap();
+        let r = pool1.install(|| {
+            let _ = run_once(&decoy, false);
+            run_once(&cfg, false)
+        });
+        rep.count("rebuilt_after_another_sampler_ran_and_was_dropped_on_the_same_thread");
+        if !compare("after a sampler of the same kind with other parameters ran and was dropped on the same thread", r, rep) {
+            return;
+        }
+    }
     // (ii) thread-pool sizes
     let threads = *g.choose(&[1usize, 2, 3, 8, 16]);
     rep.count(&format!("pool_threads[{threads}]"));
@@ -302,7 +373,7 @@ fn case(ctx: &Ctx, rep: &mut Report, case: u64, g: &mut Sm64, kind: Kind) {
     }
     // (iv) progress mode (costs >= one 250 ms poll): a fraction of the cases
     if case % 4 == 0 {
-        let expect = if kind == Kind::Nuts { nuts_shifted(&cfg) } else { Ok(base.clone()) };
+        let expect = if matches!(kind, Kind::Nuts | Kind::NutsGauss2D) { nuts_shifted(&cfg) } else { Ok(base.clone()) };
         rep.eval();
         // progress mode under two more schedule conditions: (a) another sampler of the same kind is
         // inside run_progress at the same time, (b) the call comes from inside a rayon pool with
@@ -393,6 +464,117 @@ fn case(ctx: &Ctx, rep: &mut Report, case: u64, g: &mut Sm64, kind: Kind) {
     rep.sample(json!({"cfg": cj, "output_hash": format!("{:016x}", hash_u64s(&base)), "threads": threads, "background_samplers": n_bg}));
 }
 
+/// Determinism must not depend on the *values* drawn: seeds are searched for which a chain's
+/// seeded generator yields an acceptance uniform of exactly 0 (f32: one draw in 2^24), the sampler
+/// is then built and run repeatedly. (Any entropy taken from outside the seeded generators on
+/// such a draw shows as differing outputs.)
+fn rare_draw_case(ctx: &Ctx, rep: &mut Report, case: u64, g: &mut Sm64) {
+    use rand::rngs::SmallRng;
+    use rand::{Rng, SeedableRng};
+    let mon = "raredraw";
+    let base = g.next_u64() >> 4;
+    if case % 2 == 0 {
+        // MH, f32: chain i of a sampler seeded with s draws its acceptance uniforms from SmallRng(s+1+i)
+        let budget = if ctx.thorough { 1u64 << 28 } else { 1u64 << 27 };
+        let mut found = None;
+        for k in 0..budget {
+            let s = base.wrapping_add(k);
+            let mut r = SmallRng::seed_from_u64(s.wrapping_add(1));
+            let u: f32 = r.random();
+            if u == 0.0 {
+                found = Some(s);
+                break;
+            }
+        }
+        let Some(seed) = found else {
+            rep.inconclusive("no seed whose first acceptance uniform is exactly 0 found in the scan budget");
+            return;
+        };
+        let build = || {
+            MetropolisHastings::new(IsotropicGaussian::<f32>::new(1.0), IsotropicGaussian::<f32>::new(1.5).set_seed(seed ^ 0x55), vec![vec![0.0f32, 0.0], vec![0.1, -0.1]]).seed(seed)
+        };
+        let cj = json!({"sampler": "MetropolisHastings<f32>", "seed": seed, "n_chains": 2, "n_collect": 12});
+        // precondition, observed on the sampler itself
+        let first_u: f32 = build().chains[0].rng.clone().random();
+        if first_u != 0.0 {
+            rep.inconclusive("seed search assumed a per-chain seeding scheme the sampler does not use: no exact-zero draw produced");
+            return;
+        }
+        rep.count("samplers_whose_first_acceptance_draw_is_exactly_0");
+        let mut images = vec![];
+        for _ in 0..12 {
+            rep.eval();
+            match guard(|| build().run(12, 0).unwrap()) {
+                Ok(a) => images.push(a.iter().map(|x| x.to_bits()).collect::<Vec<u32>>()),
+                Err(m) => {
+                    rep.violation("MetropolisHastings<f32> panic on an exact-zero acceptance draw", mon, case, json!({"cfg": cj, "panic": m}));
+                    return;
+                }
+            }
+        }
+        if let Some(k) = images.iter().position(|im| im != &images[0]) {
+            rep.violation("MetropolisHastings<f32> output-differs: repeated construction with the same seed (acceptance draw exactly 0)", mon, case,
+                json!({"cfg": cj, "first_differing_repetition": k}));
+            return;
+        }
+        rep.held();
+        rep.distinct(("raredraw-mh", seed));
+    } else {
+        // HMC, f32: n*d momenta, then n acceptance uniforms from the sampler's generator (the
+        // assumption only steers the search; the hook shows which uniforms were really used)
+        let (n_chains, d) = (32usize, 1usize);
+        let budget = if ctx.thorough { 1u64 << 24 } else { 1u64 << 23 };
+        let mut found = None;
+        for k in 0..budget {
+            let s = base.wrapping_add(k);
+            let mut r = SmallRng::seed_from_u64(s);
+            for _ in 0..n_chains * d {
+                let _: f32 = r.sample(rand_distr::StandardNormal);
+            }
+            if (0..n_chains).any(|_| r.random::<f32>() == 0.0) {
+                found = Some(s);
+                break;
+            }
+        }
+        let Some(seed) = found else {
+            rep.inconclusive("no seed with an acceptance uniform of exactly 0 found in the scan budget");
+            return;
+        };
+        let target = DiagGauss::new(vec![1.0], vec![0.0]);
+        let inits: Vec<Vec<f32>> = (0..n_chains).map(|i| vec![0.1 * i as f32 - 1.5]).collect();
+        let cj = json!({"sampler": "HMC<f32, NdArray<f32>>", "seed": seed, "n_chains": n_chains, "n_collect": 6, "step_size": 1.9, "L": 2});
+        let build = || HMC::<f32, B32, DiagGauss>::new(target.clone(), inits.clone(), 1.9, 2).set_seed(seed);
+        mini_mcmc::verif::enable();
+        let _ = guard(|| build().step());
+        let ev = mini_mcmc::verif::take();
+        mini_mcmc::verif::disable();
+        let zero_seen = ev.iter().any(|e| matches!(e, mini_mcmc::verif::Event::HmcStep { uniforms, .. } if uniforms.iter().any(|u| *u == 0.0)));
+        if !zero_seen {
+            rep.inconclusive("seed search assumed a draw order the sampler does not use: no exact-zero draw produced");
+            return;
+        }
+        rep.count("samplers_whose_first_acceptance_draw_is_exactly_0");
+        let mut images = vec![];
+        for _ in 0..6 {
+            rep.eval();
+            match guard(|| t3(build().run(6, 0))) {
+                Ok(a) => images.push(a),
+                Err(m) => {
+                    rep.violation("HMC<f32> panic on an exact-zero acceptance draw", mon, case, json!({"cfg": cj, "panic": m}));
+                    return;
+                }
+            }
+        }
+        if let Some(k) = images.iter().position(|im| im != &images[0]) {
+            rep.violation("HMC<f32> output-differs: repeated construction with the same seed (acceptance draw exactly 0)", mon, case,
+                json!({"cfg": cj, "first_differing_repetition": k}));
+            return;
+        }
+        rep.held();
+        rep.distinct(("raredraw-hmc", seed));
+    }
+}
+
 fn init_case(rep: &mut Report, case: u64, g: &mut Sm64) {
     let mon = "init";
     let (n, d) = (g.range(0, 40), g.range(0, 12));
@@ -430,11 +612,15 @@ fn init_case(rep: &mut Report, case: u64, g: &mut Sm64) {
 }
 
 pub fn run(ctx: &Ctx, rep: &mut Report) {
-    let kinds = [Kind::Mh, Kind::MhFreshProposal, Kind::Gibbs, Kind::Hmc, Kind::Hmc32, Kind::Nuts, Kind::HmcWide, Kind::MhSleepy];
+    let kinds = [Kind::Mh, Kind::MhFreshProposal, Kind::Gibbs, Kind::Hmc, Kind::Hmc32, Kind::Nuts, Kind::HmcWide, Kind::MhSleepy, Kind::MhGauss2D, Kind::HmcGauss2D, Kind::NutsGauss2D];
     for c in ctx.case_ids("bytes", 96, 20_000) {
         let mut g = ctx.rng("bytes", c);
         let kind = kinds[(c as usize / 4 + c as usize) % kinds.len()];
         case(ctx, rep, c, &mut g, kind);
+    }
+    for c in ctx.case_ids("raredraw", 2, 32) {
+        let mut g = ctx.rng("raredraw", c);
+        rare_draw_case(ctx, rep, c, &mut g);
     }
     for c in ctx.case_ids("init", 200, 200_000) {
         let mut g = ctx.rng("init", c);
